@@ -52,6 +52,13 @@ struct Case {
     unit: Option<Unit>,
     suffix: bool,
     kind: Kind,
+    /// a global label configured on the builder (name, value)
+    global: Option<(String, String)>,
+}
+
+/// what a label name becomes (written from the exposition grammar: [a-zA-Z_][a-zA-Z0-9_]*, anything else -> '_')
+fn label_name_after_sanitising(s: &str) -> String {
+    s.chars().enumerate().map(|(i, c)| if c.is_ascii_alphabetic() || c == '_' || (i > 0 && c.is_ascii_digit()) { c } else { '_' }).collect()
 }
 
 fn expected_samples(kind: Kind) -> usize {
@@ -71,6 +78,9 @@ fn judge(c: &Case) -> Result<String, (String, String)> {
         Kind::HistPrefix => b = b.set_buckets_for_metric(Matcher::Prefix(c.name.clone()), &[1.0, 5.0]).unwrap(),
         Kind::HistSuffix => b = b.set_buckets_for_metric(Matcher::Suffix(c.name.clone()), &[1.0, 5.0]).unwrap(),
         _ => {}
+    }
+    if let Some((gk, gv)) = &c.global {
+        b = b.add_global_label(gk.clone(), gv.clone());
     }
     let rec = b.build_recorder();
     let mut labels = vec![Label::new(c.label_key.clone(), c.label_val.clone())];
@@ -104,7 +114,10 @@ fn judge(c: &Case) -> Result<String, (String, String)> {
         return Err(("family-count-changed-by-input".into(), format!("{} families instead of 2 ;; text {:?}", fams.len(), text)));
     }
     let by = fams.iter().find(|f| f.name == "zz_other").ok_or_else(|| ("bystander-family-disturbed".to_string(), format!("text {:?}", text)))?;
-    if by.samples.len() != 1 || by.samples[0].value_f64() != 7.0 || by.samples[0].labels != vec![("l".to_string(), "v".to_string())] || by.help.as_deref() != Some("bystander") || by.ty != "gauge" {
+    // a global label is added to every series unless the key has a label of the same (sanitised) name
+    let gname = c.global.as_ref().map(|g| label_name_after_sanitising(&g.0));
+    let extra_by = gname.as_ref().map(|g| (g != "l") as usize).unwrap_or(0);
+    if by.samples.len() != 1 || by.samples[0].value_f64() != 7.0 || !by.samples[0].labels.contains(&("l".to_string(), "v".to_string())) || by.samples[0].labels.len() != 1 + extra_by || by.help.as_deref() != Some("bystander") || by.ty != "gauge" {
         return Err(("bystander-family-disturbed".into(), format!("bystander family is {:?} ;; text {:?}", by, text)));
     }
     let f = fams.iter().find(|f| f.name != "zz_other").unwrap();
@@ -120,12 +133,8 @@ fn judge(c: &Case) -> Result<String, (String, String)> {
     if f.samples.len() != expected_samples(c.kind) {
         return Err(("sample-count-changed-by-input".into(), format!("{} samples instead of {} ;; text {:?}", f.samples.len(), expected_samples(c.kind), text)));
     }
-    let nlabels = 1 + c.label2_val.is_some() as usize;
-    for s in &f.samples {
-        if s.series_labels().len() != nlabels {
-            return Err(("label-count-changed-by-input".into(), format!("sample {:?} has {} series labels instead of {} ;; text {:?}", s, s.series_labels().len(), nlabels, text)));
-        }
-    }
+    let own: Vec<String> = std::iter::once(label_name_after_sanitising(&c.label_key)).chain(c.label2_val.iter().map(|_| "zz".to_string())).collect();
+    let nlabels = 1 + c.label2_val.is_some() as usize + gname.as_ref().map(|g| !own.contains(g) as usize).unwrap_or(0);
     if c.desc.is_some() != f.help.is_some() {
         return Err(("help-line-missing-or-forged".into(), format!("help {:?} for description {:?}", f.help, c.desc)));
     }
@@ -136,7 +145,7 @@ fn judge(c: &Case) -> Result<String, (String, String)> {
 }
 
 fn base(kind: Kind) -> Case {
-    Case { name: "m".into(), label_key: "k".into(), label_val: "v".into(), label2_val: None, desc: Some("help".into()), unit: None, suffix: false, kind }
+    Case { name: "m".into(), label_key: "k".into(), label_val: "v".into(), label2_val: None, desc: Some("help".into()), unit: None, suffix: false, kind, global: None }
 }
 
 const SIGMA: [&str; 17] = ["a", "Z", "0", "_", ":", "\"", "\\", "\n", "\r", "{", "}", ",", "=", "#", " ", "é", "\0"];
@@ -170,6 +179,20 @@ fn sweep(ctx: &Ctx, res: &mut PartResult, which: &str) {
             for s in short.iter().chain(classy.iter()) {
                 for k in [Kind::Gauge, Kind::Summary] {
                     cases.push(Case { label_val: s.clone(), label2_val: Some("w".into()), ..base(k) });
+                }
+            }
+        }
+        "global_val" => {
+            for s in short.iter().chain(classy.iter()) {
+                for k in [Kind::Counter, Kind::Summary, Kind::Histogram] {
+                    cases.push(Case { global: Some(("gk".into(), s.clone())), ..base(k) });
+                }
+            }
+        }
+        "global_key" => {
+            for s in short.iter().filter(|s| !s.is_empty()) {
+                for k in [Kind::Gauge, Kind::Histogram] {
+                    cases.push(Case { global: Some((s.clone(), "g\"v\\".into())), label2_val: Some("w".into()), ..base(k) });
                 }
             }
         }
@@ -247,7 +270,7 @@ fn sweep(ctx: &Ctx, res: &mut PartResult, which: &str) {
 }
 
 fn parts(ctx: &Ctx) -> Vec<PartSpec> {
-    ["name", "label_key", "label_val", "desc", "pairs", "units"].iter().map(|w| PartSpec::new(&format!("e3-{}", w), json!({"which": w})).budget(if ctx.quick() { 50.0 } else { 2400.0 })).collect()
+    ["name", "label_key", "label_val", "global_val", "global_key", "desc", "pairs", "units"].iter().map(|w| PartSpec::new(&format!("e3-{}", w), json!({"which": w})).budget(if ctx.quick() { 50.0 } else { 2400.0 })).collect()
 }
 
 fn run(ctx: &Ctx, spec: &PartSpec) -> PartResult {
@@ -260,7 +283,7 @@ fn main() {
     driver::main(CheckDef {
         prop: "C08",
         level: "model_checking",
-        rule: "every string of length <= 3 (thorough 4) over a 17-character nasty alphabet {a Z 0 _ : \" \\ LF CR { } , = # space é NUL} in each role (metric name, label key, label value, description; names/keys non-empty), every string of length <= 7 (9) over the escaper's four character classes for label values and descriptions, pairs of roles, and all 17 Unit values x unit-suffix on/off x awkward names; each for counter/gauge/summary/histogram on a fresh recorder with a bystander family; render() output must parse under a strict grammar (line classes, name grammars, escapes, value forms, one TYPE before samples, allowed suffixes) and come back with exactly the registered families, samples and label counts; distinct = distinct (family name, type, sample-name set)",
+        rule: "every string of length <= 3 (thorough 4) over a 17-character nasty alphabet {a Z 0 _ : \" \\ LF CR { } , = # space é NUL} in each role (metric name, label key, label value, global label name, global label value, description; names/keys non-empty), every string of length <= 7 (9) over the escaper's four character classes for label values and descriptions, pairs of roles, and all 17 Unit values x unit-suffix on/off x awkward names; each for counter/gauge/summary/histogram on a fresh recorder with a bystander family; render() output must parse under a strict grammar (line classes, name grammars, escapes, value forms, one TYPE before samples, allowed suffixes) and come back with exactly the registered families, samples and label counts; distinct = distinct (family name, type, sample-name set)",
         assumptions: &["the C07 precondition: sanitised names distinct, label names not le/quantile (the alphabets cannot produce a collision)"],
         parts,
         run,
